@@ -16,6 +16,7 @@ func (v *Vue) evalAttributes(ctx VueContext, n *html.Node) (map[string]any, erro
 	}
 
 	results := map[string]any{}
+	var boundOrder []string // bound attribute names in source order
 
 	var newAttrs []html.Attribute
 
@@ -46,6 +47,9 @@ func (v *Vue) evalAttributes(ctx VueContext, n *html.Node) (map[string]any, erro
 			if !helpers.IsTruthy(boundValue) {
 				continue
 			}
+			if _, seen := results[boundName]; !seen {
+				boundOrder = append(boundOrder, boundName)
+			}
 			results[boundName] = boundValue
 		default:
 			var err error
@@ -63,7 +67,8 @@ func (v *Vue) evalAttributes(ctx VueContext, n *html.Node) (map[string]any, erro
 	}
 
 	// Second pass: merge bound attributes with static ones
-	for attrName, boundValue := range results {
+	for _, attrName := range boundOrder {
+		boundValue := results[attrName]
 		// Check if there's a static attribute with the same name
 		staticIdx := -1
 		for i, a := range newAttrs {
@@ -379,12 +384,30 @@ func (v *Vue) mergeStyles(staticStyle, boundStyle string) string {
 		staticMap[k] = v
 	}
 
-	// Rebuild style string
+	// Rebuild style string in order of first appearance (static declarations, then bound-only ones)
 	var styles []string
-	for k, v := range staticMap {
-		styles = append(styles, k+":"+v+";")
+	for _, k := range styleKeys(staticStyle + ";" + boundStyle) {
+		styles = append(styles, k+":"+staticMap[k]+";")
 	}
 	return strings.Join(styles, "")
+}
+
+// styleKeys lists the property names declared in a style string, in order of first appearance.
+func styleKeys(style string) []string {
+	var keys []string
+	seen := map[string]bool{}
+	for _, part := range strings.Split(style, ";") {
+		kv := strings.SplitN(strings.TrimSpace(part), ":", 2)
+		if len(kv) != 2 {
+			continue
+		}
+		key := strings.TrimSpace(kv[0])
+		if !seen[key] {
+			seen[key] = true
+			keys = append(keys, key)
+		}
+	}
+	return keys
 }
 
 // parseStyleMap parses a CSS style string into a map of properties to values.
